@@ -994,7 +994,7 @@ func (rl *Shell) viYankWholeLine() {
 	bpos, epos := rl.selection.Pos()
 
 	// If selection has a new line, remove it.
-	if (*rl.line)[epos-1] == '\n' {
+	if epos > 0 && (*rl.line)[epos-1] == '\n' {
 		epos--
 	}
 
